@@ -36,6 +36,7 @@ ssym = s.sympy
 LEAVES = {'R': R, 'G': G, 'L': L, 'C': C}
 
 _recorded = []
+_sdep = []
 
 
 def _wrap(name):
@@ -79,6 +80,11 @@ def tree_of(net, point):
         return ['?', str(net)], False
     v = to_rational(expr(net.args[0]), point)
     if v is None:
+        try:
+            if ssym in sym.sympify(expr(net.args[0]).sympy).free_symbols:
+                _sdep.append(str(net))
+        except Exception:
+            pass
         return [nm, str(net.args[0])], False
     return [nm, frac_str(v)], True
 
@@ -118,15 +124,44 @@ def ratfun_coeffs(e, point):
 
 
 def exact_zero(d):
+    """True / False / None (undecided).  Exact: the numerator of together(d) is
+    expanded; rational coefficients are compared literally, algebraic (radical)
+    coefficients through their minimal polynomial (c == 0 iff minpoly(c) = x)."""
     d = sym.together(d)
     n, _ = sym.fraction(d)
     n = sym.expand(n)
     if n == 0:
         return True
-    if n.is_polynomial(ssym) and all(cf.is_Rational for cf in sym.Poly(n, ssym).all_coeffs()):
-        return False
-    n = sym.simplify(n)
-    return n == 0
+    try:
+        P = sym.Poly(n, ssym)
+    except Exception:
+        return None
+    X = sym.Dummy('X')
+    verdict = True
+    for cf in P.all_coeffs():
+        if cf.is_Rational:
+            if cf != 0:
+                return False
+            continue
+        if cf.free_symbols:
+            cf2 = sym.factor(sym.together(cf))
+            if cf2 == 0:
+                continue
+            num = sym.expand(sym.fraction(sym.together(cf2))[0])
+            if num == 0:
+                continue
+            if num.is_polynomial(*num.free_symbols) and all(c.is_Rational for c in sym.Poly(num, *num.free_symbols).coeffs()):
+                return False
+            verdict = None
+            continue
+        try:
+            mp = sym.minimal_polynomial(cf, X)
+        except Exception:
+            verdict = None
+            continue
+        if mp != X:
+            return False
+    return verdict
 
 
 class CaseTimeout(Exception):
@@ -208,18 +243,25 @@ def run_case(c):
     if net is None:
         out.update(status='none', oracle='na')
         return out
+    del _sdep[:]
     tree, ok = tree_of(net, point)
+    if _sdep:
+        out['sdep'] = _sdep[:3]
     out['status'] = 'net'
     out['tree'] = tree if ok else None
     out['text'] = str(net)[:300]
     signal.alarm(T_ORACLE)
     try:
         d = net.Z(s).sympy - Zreq.sympy
-        if exact_zero(d):
+        z = exact_zero(d)
+        if z is True:
             out['oracle'] = 'ok'
-        else:
+        elif z is False:
             out['oracle'] = 'bad'
             out['zdiff'] = str(sym.together(d))[:300]
+        else:
+            out['oracle'] = 'na'
+            out['oracle_error'] = 'undecided (irrational coefficients)'
     except CaseTimeout:
         out['oracle'] = 'na'
         out['oracle_error'] = 'timeout'
